@@ -17,6 +17,8 @@ EXTRA = {"C06_2": ["C05", "C09"], "C07_2": ["C14"], "C14_2": ["C06"], "C07_5": [
 
 
 def main():
+    append = "--append" in sys.argv
+    sys.argv = [a for a in sys.argv if a != "--append"]
     seeds = sys.argv[1:] or sorted(d for d in os.listdir(os.path.join(VERIF, "seeded"))
                                    if os.path.isfile(os.path.join(VERIF, "seeded", d, "patch.diff")))
     rows = []
@@ -39,7 +41,15 @@ def main():
            "Written by `bin/seedbatch.py`. Each row: the patch applied to /repo's working tree, the quick check(s) run,",
            "the patch reverted. `caught` = exit 1 with a VIOLATION line; `tool error` = exit 2; `missed` = exit 0.", "",
            "| seed | property | what the change does | check: outcome (first reported symptom) |", "|---|---|---|---|"]
+    # --append: rows of seeds not run now are kept from the existing RESULTS.md
+    kept = {}
+    rp = os.path.join(VERIF, "seeded", "RESULTS.md")
+    if append and os.path.exists(rp):
+        for line in open(rp):
+            if line.startswith("| C"):
+                kept[line.split("|")[1].strip()] = line.rstrip("\n")
     caught = 0
+    new_rows = {}
     for s, meta, res in rows:
         cells = []
         ok = False
@@ -50,7 +60,12 @@ def main():
             cells.append(f"{c}: **{word}** {sym}")
         caught += ok
         what = (meta.get("summary") or meta.get("what") or meta.get("description") or "")[:160].replace("|", "/").replace("\n", " ")
-        out.append(f"| {s} | {meta['property']} | {what} | {'<br>'.join(cells) or res.get('error', '')} |")
+        new_rows[s] = f"| {s} | {meta['property']} | {what} | {'<br>'.join(cells) or res.get('error', '')} |"
+    kept.update(new_rows)
+    for s in sorted(kept):
+        out.append(kept[s])
+    caught = sum(1 for r in kept.values() if "**caught**" in r)
+    rows = list(kept)
     out += ["", f"{caught} of {len(rows)} seeds are caught by at least one of the checks run for them."]
     with open(os.path.join(VERIF, "seeded", "RESULTS.md"), "w") as f:
         f.write("\n".join(out) + "\n")
